@@ -7,7 +7,7 @@ CONSTANTS Depth,
                     \* nine steps of ten on cursors that are not declared or not open)
 VARIABLE hist
 GenInit == Init /\ hist = <<[act |-> "init", tbl |-> tbl]>>
-LiveActs == {"declare", "open", "close", "fetch", "status", "whilein", "insert", "delete", "dispose"}
+LiveActs == {"declare", "open", "close", "fetch", "status", "whilein", "insert", "delete", "replace", "update", "dispose"}
 GenNext == /\ Len(hist) <= Depth
            /\ \E a \in Actions : /\ (Mode = "live" => a.act \in LiveActs)
                                  /\ Do(a)
